@@ -144,6 +144,21 @@ void gen_history(Rng &r, const Profile &pf, Plan &plan) {
         if (!setPointRate) { ar = bits2f(RATES[r.below(8)]); }
         Step s; s.op = OP_SET_RATE; s.i = {1, static_cast<int64_t>(f2bits(ar))}; setup.push_back(s);
     }
+    // rate revisions before any data exists (the header must follow every one of them, C05): sub-frame ratio moved by
+    // small steps (3 -> 2, 10 -> 9 ...) as well as large ones, and the point rate re-declared under a fixed analog rate
+    if (C > 0 && setPointRate && r.chance(1, 3)) {
+        unsigned nrev = 1 + static_cast<unsigned>(r.below(3));
+        for (unsigned k = 0; k < nrev; ++k) {
+            Step s; s.op = OP_SET_RATE;
+            if (r.chance(3, 4)) {
+                unsigned S2 = 1 + static_cast<unsigned>(r.below(r.chance(1, 4) ? 12 : 5));
+                s.i = {1, static_cast<int64_t>(f2bits(bits2f(prate) * static_cast<float>(S2)))};
+            } else {
+                s.i = {0, static_cast<int64_t>(RATES[r.below(8)])};
+            }
+            setup.push_back(s);
+        }
+    }
     std::vector<std::string> groups = {"POINT", "ANALOG", "FORCE_PLATFORM"};
     unsigned ng = static_cast<unsigned>(r.below(3));
     for (unsigned g = 0; g < ng; ++g) {
